@@ -13,8 +13,8 @@ claimed = {
  'C02': ('A', 'explicit-state BFS over whole-frame arrival/withhold histories through the real Write for every descriptor-shape configuration; independent pion parsers as oracle',
    'For every configuration (VP8 descriptor shapes, VP9 flexible/non-flexible with two spatial layers, opaque codecs; CSRC count; header extension; picture-id width and start; start seqno) all in-order histories of frames of 1-3 packets, each forwarded or withheld, are run through the real rtpDownTrack.Write; each output packet is compared with its source (length, timestamp, CSRCs, extension, marker rule, payload bytes outside the picture id, expected picture id = source minus withheld frames), and the source buffer must be untouched.',
    'In-order arrival and whole-frame withholding as in the quantifier; layer state pinned.', 'DESIGN.md §3 C02'),
- 'C03': ('A', 'explicit-state BFS over forwarding histories interleaved with NACKs delivered as RTCP to the real rtcpDownListener; byte comparison with the first transmission',
-   'BFS over forward/withhold/loss/late/cache-resize/layer-request histories interleaved with NACKs for recent, never-sent, neighbouring and evicted numbers; retransmissions go through the real gotNACK/Reverse/GetPacket/cache/Write path and must be byte-identical to the first transmission or absent; plus a deeper pure Map/Drop/Reverse exploration with long runs (Reverse inverts Map, never names a withheld packet).',
+ 'C03': ('A+B', 'explicit-state BFS over forwarding histories interleaved with NACKs delivered as RTCP to the real rtcpDownListener; byte comparison with the first transmission; preemption-bounded schedule enumeration with vector-clock race monitor of gotNACK against the publisher storing/forwarding at the eviction boundary',
+   'BFS over forward/withhold/loss/late/cache-resize/layer-request histories interleaved with NACKs for recent, never-sent, neighbouring and evicted numbers; retransmissions go through the real gotNACK/Reverse/GetPacket/cache/Write path and must be byte-identical to the first transmission or absent; plus a deeper pure Map/Drop/Reverse exploration with long runs (Reverse inverts Map, never names a withheld packet); plus every schedule (<=2/3 preemptions) of the real gotNACK answering for the packets at the cache eviction boundary while the publisher stores and forwards new packets (and resizes the cache), with all cache fields monitored for happens-before races and every packet leaving twice under one number compared byte for byte.',
    'Packets enter the cache as readLoop stores them; cache capacity 4 so eviction is reachable; VP9 layer requests set through an accessor mirroring adjustLayer.', 'DESIGN.md §3 C03'),
  'C04': ('A', 'explicit-state BFS over packet/feedback/request interleavings on the real rtpDownTrack with before/after monitors',
    'BFS over every VP8/VP9 flag pattern (tid, sid, start, keyframe, up-switch, non-reference), one late packet, REMB and receiver reports (real RTCP through the real rtcpDownListener), feedback timeout, load changes on the virtual clock and low-quality requests (real replaceTracks), from the initial and two non-initial layer states, for start seqno classes; monitors check withholding above the selection, legality of every spatial/temporal switch, selection <= layers seen, steering to sid 0 after a low-quality request, and the loss ceiling bounds.',
@@ -34,10 +34,10 @@ claimed = {
    'For 11 group configurations (locked, max-clients 1/2/3, inside/before/after the window, autolock, autokick, both) all pairs and selected triples of 9 thread bodies (joins of users/operator/duplicate id, leaves, lock, unlock, reload) under every schedule with <=2/3 preemptions; the Joined(join) callback, invoked while AddClient holds the group lock, records the lock flag, membership and operator count the decision was based on; plus BFS depth 6/8 of join/leave/disconnect/lock/unlock through the real websocket handlers per configuration (joined{join|fail}, user{add}, lock state, membership) and the redirect case.',
    'Clients are recording fakes whose callbacks do not block; kicked fakes stay members (their loop never runs).', 'DESIGN.md §3 C10'),
  'C13': ('B', 'stateless schedule enumeration with iterative preemption bounding under a cooperative scheduler; vector-clock happens-before race monitor; deadlock = no enabled thread',
-   '18 programs of 1-3 threads with 1-3 real lifecycle calls each (AddClient, DelClient, SetLocked, reload, GetDescription, stats.GetGroups, group.Update, group.Delete, WhipClient.Close/Permissions, disk-writer Kick, Shutdown, data/history/status readers) plus two action-queue programs (two producers and the clientLoop consumer pattern), every schedule with <=3 (thorough 5) preemptions; deadlocks, unsynchronised accesses to the monitored Group/registry/configuration/queue fields, membership consistency, exactly-once and per-producer order of queued items.',
+   '20 programs of 1-3 threads with 1-3 real lifecycle calls each (AddClient, DelClient, SetLocked, reload, GetDescription, stats.GetGroups, group.Update, group.Delete, WhipClient.Close/Permissions, disk-writer Kick, Shutdown, data/history/status readers) plus two action-queue programs (two producers and the clientLoop consumer pattern), every schedule with <=3 (thorough 5) preemptions; deadlocks, unsynchronised accesses to the monitored Group/registry/configuration/queue fields, membership consistency, exactly-once and per-producer order of queued items.',
    'Scheduling points at mutex, atomic, file and unbounded channel operations of the instrumented packages; happens-before through raw channels only for spawn/join.', 'DESIGN.md §3 C13'),
  'C20': ('A', 'exhaustive enumeration of delivery histories (bounded permutations, duplications, gaps with/without cache recovery, sender-report positions, sizes, pre-rolls) through the real disk writer; files parsed back with ebml-go',
-   'For 204 stream configurations (VP8/VP9/H264/opus, 3-6 frames of 1-3 packets, payload sizes, timestamp and seqno wrap) every permutation with displacement <=2/3, every single duplication, every choice of one or two undelivered packets present or absent in the real packet cache, a sender report at every position, Close vs publisher departure, and pre-rolls that put the sample builder ring just before its wrap; each history is one execution of the real diskwriter through its public API; the recorded blocks are compared with independently depacketised frames (byte identity, no repeats, order, timestamps, completeness after the first keyframe, container well-formedness, shared origin, flush on stop).',
+   'For 206 stream configurations (VP8/VP9/H264/opus, 3-6 frames of 1-3 packets, payload sizes, timestamp and seqno wrap) every permutation with displacement <=2/3, every single duplication, every choice of one or two undelivered packets present or absent in the real packet cache, a sender report at every position, Close vs publisher departure, pre-rolls that put the sample builder ring just before its wrap, and a pre-roll whose first keyframe is lost for good (the file has to start at a later keyframe); each history is one execution of the real diskwriter through its public API; the recorded blocks are compared with independently depacketised frames (byte identity, no repeats, order, timestamps, completeness after the first keyframe, container well-formedness, shared origin — within arrival jitter, and within 2 ms once sender reports for both tracks precede the creation of the file —, flush on stop).',
    'Recoverable = in the cache when the gap is first noticed; exemptions before the first keyframe as stated in evidence; multi-NAL H264 access units not in the alphabet.', 'DESIGN.md §3 C20'),
  'C08': ('A+D', 'full product enumeration of descriptions x credentials through readDescription/GetPermission/AddClient/handleClientMessage vs an independent reference; BFS over moderation histories; tool round trip',
    'Full Cartesian products of group descriptions (password encodings, roles, wildcard user, flags) x credentials through the real readDescription + GetPermission, group.AddClient with harness clients, and the real websocket join handler; BFS over moderation-action histories followed by fresh logins (role table aliasing); enumeration of galenectl makePassword parameters round-tripped through Password.Match.',
@@ -54,11 +54,11 @@ claimed = {
  'C19': ('A', 'exhaustive enumeration of all strings up to a length bound over a path-relevant alphabet through validators, group layer, HTTP handlers (three wire forms) and the disk writer, with a file-system operation log and sentinel files',
    'Every string of <=4 (thorough: 6) symbols over {a,b,.,/,\\,%,NUL,e-acute,space} is used as group name, username, token, recordings path, static path and delete-form filename through the real group layer, the routes registered by the real webserver.Serve (plain, percent-encoded and double-encoded forms) and the real diskwriter; every file-system operation of the instrumented packages must stay inside the directory of its category, sentinels outside stay untouched and unserved, nothing is served for a name the reference predicate rejects; validGroupName/validUsername agree with the predicate on all strings of <=7/8 symbols.',
    'Linux path semantics, no symlinks in the sandbox; os.Root operations trusted and cross-checked by sentinels; WHIP POST and the websocket upgrade not driven.', 'DESIGN.md §3 C19'),
- 'C14': ('D', 'explicit-state BFS over membership/moderation/setdata sequences and detached-task firings through the real handlers; views rebuilt with protocol.js semantics',
-   'BFS over join/leave/disconnect/kick/op/unop/present/unpresent/setdata by three clients in two groups, with lazy variants (message handled while queues are non-empty) and explicit firing of detached goroutines; per-message oracles (no event from another group, one delete per departure) and, at quiescence, every member view == Group.GetClients with usernames, permissions and data.',
+ 'C14': ('D+B', 'explicit-state BFS over membership/moderation/setdata sequences and detached-task firings through the real handlers; views rebuilt with protocol.js semantics; preemption-bounded schedule enumeration of the same worlds with every client loop and detached goroutine as a controlled thread',
+   'BFS over join/leave/disconnect/kick/op/unop/present/unpresent/setdata by three clients in two groups, with lazy variants (message handled while queues are non-empty) and explicit firing of detached goroutines; per-message oracles (no event from another group, one delete per departure) and, at quiescence, every member view == Group.GetClients with usernames, permissions and data; plus race programs (sig.RaceProgram) in which joins, leaves, moderation and setdata of different clients run as concurrently scheduled threads (<=2/3 preemptions) with the same quiescence oracle.',
    'Trusted mirror: clientLoop dispatch; per-message bookkeeping only on histories without lazy steps.', 'DESIGN.md §3 C14'),
- 'C15': ('D', 'explicit-state BFS over chat/usermessage/clearchat/join/leave/tick sequences through the real handleClientMessage vs a reference chat model',
-   'BFS over chat and usermessage variants (claimed source/username, dest, noecho, kinds, ids), clearchat variants, joins of late clients, a 49-message macro and clock ticks around the configured history age, by three clients with different roles in two groups; every message written to every client is checked for authenticity, privileged flag, recipients, spoof rejection and the history replay (order, bound 50, age, clears).',
+ 'C15': ('D+B', 'explicit-state BFS over chat/usermessage/clearchat/join/leave/tick sequences through the real handleClientMessage vs a reference chat model; preemption-bounded schedule enumeration of a joiner replaying a full history against posts and clears',
+   'BFS over chat and usermessage variants (claimed source/username, dest, noecho, kinds, ids), clearchat variants, joins of late clients, a 49-message macro and clock ticks around the configured history age, by three clients with different roles in two groups; every message written to every client is checked for authenticity, privileged flag, recipients, spoof rejection and the history replay (order, bound 50, age, clears); plus race programs in which a client joins (history replay) while others post to a full history or clear it, under every schedule with <=2/3 preemptions.',
    'Queued actions handled to quiescence after every message; client k logs in as the k-th user.', 'DESIGN.md §3 C15'),
  'C16': ('A+B+C', 'explicit-state BFS over token operation sequences (library and HTTP) vs fresh reload; preemption-bounded schedule enumeration of conditional editors; crash-point and fault enumeration over every file-system step',
    'BFS over create/update/delete with current, stale and empty tags, expire, clock ticks, list, get and external file edits, through the library and the HTTP route, comparing the running server with a freshly loaded state after every step; all schedules (<=2/3 preemptions) of 2-3 editors holding tags; a crash before and after every vos step of five write histories, and one injected I/O error at every step.',
